@@ -7,7 +7,7 @@ NOTE = ('Trusted: Coq 8.16.1 kernel + vm_compute; the hand-written model is tied
 
 CLAIMED = {
     'C10': dict(
-        technique='Coq proof over a Gallina model of digitize / COO accumulation / the 1-D marginal + differential correspondence on edge-hitting integer data',
+        technique='Coq proof over a Gallina model of digitize / COO accumulation / the 1-D marginal + differential correspondence on edge-hitting integer data + TRANSLATION TIE (Prop_Tie_Spectra.v): the bodies of hilberthuang and hilberthuang_1d are regenerated from the source on every run by a fail-closed ast translator and machine-checked refinement theorems show the hand model computes exactly what the translated program computes for every oracle behaviour',
         text='Theorems (Prop_C10.v) prove for all increasing edge lists and all frequency/amplitude arrays that each cell of the '
              'spectrum is the sum of the weights of exactly the samples whose frequency lies in that half-open bin (in their own time '
              'column), that out-of-range frequencies lie in no bin and a frequency lies in at most one, the same for the 1-D '
@@ -16,7 +16,7 @@ CLAIMED = {
              'oracle = per-sample brute-force histogram, dense = sparse = marginal.',
         note=NOTE),
     'C11': dict(
-        technique='Coq proof over a Gallina model of the folded sparse index / unfold / trim of holospectrum + differential correspondence',
+        technique='Coq proof over a Gallina model of the folded sparse index / unfold / trim of holospectrum + differential correspondence + TRANSLATION TIE (Prop_Tie_Spectra.v): the bodies of holospectrum are regenerated from the source on every run by a fail-closed ast translator and machine-checked refinement theorems show the hand model computes exactly what the translated program computes for every oracle behaviour',
         text='Theorems (Prop_C11.v) prove fold/unfold of the two bin indices, the output shape, that each cell is the sum of weights of '
              'exactly the samples whose carrier and AM frequencies lie in its two bins (nothing if either is out of range), and that '
              'the time-summed output is the sum over time of the full output. Correspondence + triple-loop oracle on integer data for '
@@ -31,7 +31,7 @@ CLAIMED = {
              'membership and bound on the implementation output.',
         note=NOTE),
     'C20': dict(
-        technique='Coq proof over a state-machine model of the logger and wrap_verbose (induction over histories) + exhaustive differential correspondence of histories in forked processes',
+        technique='Coq proof over a state-machine model of the logger and wrap_verbose (induction over histories) + exhaustive differential correspondence of histories in forked processes + TRANSLATION TIE (Prop_Tie_Logger.v): the bodies of wrap_verbose.inner_verbose, set_level, get_level, disable, enable, is_active (logger state threaded explicitly) are regenerated from the source on every run by a fail-closed ast translator and machine-checked refinement theorems show the hand model computes exactly what the translated program computes for every oracle behaviour',
         text='Theorems (Prop_C20.v) prove that a decorated call restores the entire logger state whether it returns or raises, in every '
              'state including never-set-up, that the caller sees the function\'s own outcome independent of logger state and override, '
              'and by induction over histories that calls never influence the logger state. Correspondence: every history up to depth '
@@ -65,7 +65,7 @@ CLAIMED = {
              'quantities is not a theorem (oracle only on linear ones).',
         note=NOTE + ' scipy interp1d(kind=linear, extrapolate) is modelled by its documented formula and validated by the correspondence.'),
     'C16': dict(
-        technique='Coq proof over a Gallina model of the 12 index maps and 6 projections + exhaustive differential correspondence (all selection vectors up to length 8/12)',
+        technique='Coq proof over a Gallina model of the 12 index maps and 6 projections + exhaustive differential correspondence (all selection vectors up to length 8/12) + TRANSLATION TIE (Prop_Tie_Maps.v): the bodies of the twelve map_* and six project_* functions are regenerated from the source on every run by a fail-closed ast translator and machine-checked refinement theorems show the hand model computes exactly what the translated program computes for every oracle behaviour',
         text='Theorems (Prop_C16.v) prove for every cycle vector and selection that subset/chain vectors are the ordered numbering / '
              'maximal runs, every map is defined on every existing index, forward-then-backward contains the original sample, '
              'forward maps are none exactly for unlabelled/unselected items, and projections place each value exactly on the items '
@@ -111,7 +111,7 @@ CLAIMED['C01'] = dict(
     note=NOTE + ' Termination of the OUTER loop is not claimed (it is not part of the property); runs that time out are discarded and counted.')
 
 CLAIMED['C03'] = dict(
-    technique='Coq proof over the abstract outer sift loop (any extraction function, so classic and masked alike) and over models of the ensemble / complete-ensemble / second-layer bookkeeping + bit-exact toy-envelope correspondence of all five variants + capped-vs-uncapped and manual-peeling oracle on real numerics + TRANSLATION TIE: the control skeleton of get_next_imf / sift / mask_sift is regenerated from emd/sift.py on every run by a fail-closed ast translator and machine-checked refinement theorems (Prop_Tie_Sift.v) show the hand model computes exactly what the translated program computes, for all oracles and fuel',
+    technique='Coq proof over the abstract outer sift loop (any extraction function, so classic and masked alike) and over models of the ensemble / complete-ensemble / second-layer bookkeeping + bit-exact toy-envelope correspondence of all five variants + capped-vs-uncapped and manual-peeling oracle on real numerics + TRANSLATION TIE: the control skeleton of get_next_imf / sift / mask_sift is regenerated from emd/sift.py on every run by a fail-closed ast translator and machine-checked refinement theorems (Prop_Tie_Sift.v) show the hand model computes exactly what the translated program computes, for all oracles and fuel + SECOND TRANSLATION TIE (Prop_Tie_Ensemble.v): the bodies of complete_ensemble_sift, sift_second_layer, ensemble_sift, _sift_with_noise are regenerated from the source on every run by a fail-closed ast translator and machine-checked refinement theorems show the hand model computes exactly what the translated program computes for every oracle behaviour',
     text='Theorems (Prop_C03.v) prove for EVERY per-layer extraction function (classic get_next_imf, or get_next_imf_mask with any frequency/amplitude '
          'schedule) that component k is that extraction applied to the input minus the first k components, that a cap of k >= 1 never yields more than k '
          'components and yields exactly the first k of the uncapped run, and that every component is a well-formed N-sample signal; that mask_sift\'s '
@@ -155,7 +155,7 @@ CLAIMED['C18'] = dict(
          'variant(x, **get_config(variant)), variant(x) and get_func()(x), and of the callable after a YAML round trip, is an oracle check.',
     note=NOTE + ' PyYAML dump/load and inspect.signature are oracles; the translator is part of the trusted base (fails closed on any unknown AST node).')
 CLAIMED['C19'] = dict(
-    technique='Coq proof over a Gallina model of the four ensure_* validators on shapes of ANY rank and of which validator each entry point calls + exhaustive differential correspondence on every shape of rank <= 3 over {1,2,3,5} (+ rank 0/4, empty axes) + oracle for non-mutation/determinism (PARTIAL: heap clauses not proved)',
+    technique='Coq proof over a Gallina model of the four ensure_* validators on shapes of ANY rank and of which validator each entry point calls + exhaustive differential correspondence on every shape of rank <= 3 over {1,2,3,5} (+ rank 0/4, empty axes) + oracle for non-mutation/determinism (PARTIAL: heap clauses not proved) + TRANSLATION TIE (Prop_Tie_Support.v): the bodies of ensure_vector, ensure_1d_with_singleton, ensure_2d, ensure_equal_dims are regenerated from the source on every run by a fail-closed ast translator and machine-checked refinement theorems show the hand model computes exactly what the translated program computes for every oracle behaviour',
     text='PARTIAL. Theorems (Prop_C19.v) prove for shapes of every rank that (n), (n,1), (n,1,...,1) normalise to the same single-column form for the '
          'single-signal sift routines and every other shape ((n,2), (1,n), (n,2,3), ...) is rejected, the full accept/reject relation and idempotence of '
          'ensure_1d_with_singleton, ensure_vector and ensure_2d as repaired, that ensure_equal_dims accepts iff the compared axes exist and agree, and '
@@ -178,7 +178,7 @@ CLAIMED['C06'] = dict(
          'oracle that every call of the option\'s stage received the supplied value and that outputs equal a hand-assembled decomposition.',
     note=NOTE + ' The stage functions are opaque (whether a stage honours an option it received is C05/C04 ground); number and order of calls are not compared.')
 CLAIMED['C08'] = dict(
-    technique='Coq proof over a model of the noise stream / fork / Pool schedule (all schedules) and of the ensemble and complete-ensemble means + traced correspondence of the real noise realisations across nensembles x nprocesses x modes + bit-exact toy-generator runs',
+    technique='Coq proof over a model of the noise stream / fork / Pool schedule (all schedules) and of the ensemble and complete-ensemble means + traced correspondence of the real noise realisations across nensembles x nprocesses x modes + bit-exact toy-generator runs + TRANSLATION TIE (Prop_Tie_Ensemble.v): the bodies of ensemble_sift, _sift_with_noise, complete_ensemble_sift are regenerated from the source on every run by a fail-closed ast translator and machine-checked refinement theorems show the hand model computes exactly what the translated program computes for every oracle behaviour',
     text='Theorems (Prop_C08.v) prove for EVERY generator and EVERY valid job-to-worker schedule that with the repaired code member i receives block i '
          'of one stream (stream positions of different members are disjoint), hence that the whole result is schedule independent; that each member is '
          'sift(X+n) or, in flip mode, half of sift(X+n)+sift(X-n) (error when their column counts differ); that each ensemble column is the mean over '
@@ -205,7 +205,7 @@ CLAIMED['C02'] = dict(
     note=NOTE + ' Arbitrary non-dyadic factors and reversal are compared within 1e-9 under a measured guard band (near-tie extrema, stop metrics within 1e-6 of threshold, zero-crossing counts on exact zeros are discarded and counted).')
 
 CLAIMED['C07'] = dict(
-    technique='Coq proof over an abstract model of the masked extraction, the mask-frequency ladder, the amplitude modes and the Pool contract (all schedules), with a fixed-point executable instance + bit-exact toy correspondence of the real get_next_imf_mask / mask_sift (quantised cosine, integer envelopes) + plain-numpy specification oracle and byte-equality across nprocesses',
+    technique='Coq proof over an abstract model of the masked extraction, the mask-frequency ladder, the amplitude modes and the Pool contract (all schedules), with a fixed-point executable instance + bit-exact toy correspondence of the real get_next_imf_mask / mask_sift (quantised cosine, integer envelopes) + plain-numpy specification oracle and byte-equality across nprocesses + TRANSLATION TIE (Prop_Tie_Mask.v): the bodies of get_next_imf_mask, get_mask_freqs and the preamble of mask_sift (its loop is in Prop_Tie_Sift.v) are regenerated from the source on every run by a fail-closed ast translator and machine-checked refinement theorems show the hand model computes exactly what the translated program computes for every oracle behaviour',
     text='Theorems (Prop_C07.v) prove, for any signal type and extraction oracle, that the masked IMF is the equal-weight mean over j < n of '
          'extraction(X + m_j) - m_j with the SAME mask m_j = amp*cos(2 pi z t + 2 pi j/n) added and subtracted, phases equally spaced, flag = any, '
          'raising iff an extraction raises; that a zero-amplitude mask reduces to plain extraction (under the numpy arithmetic laws, discharged for the '
